@@ -76,7 +76,12 @@ def run(ctx: Ctx) -> None:
             r = await evaluate_ahb_expression_tree(tree)
             return (P.resolved_shape(tree), str(r.requirement_indicator.value), repr(r.requirement_constraint_evaluation_result), repr(r.format_constraint_evaluation_result))
 
+        # the evaluators are either the content-evaluation-result based ones or evaluate_<key> methods as users write them
+        fv = rng.choice([evalenv.FV, evalenv.FV_METHODS])
+        ctx.count("evaluators", "evaluate_<key> methods" if fv is evalenv.FV_METHODS else "content-evaluation-result based")
+
         def run_one(sched):
+            evalenv.current_fv.set(fv)
             S.set_schedule(sched)
             try:
                 return asyncio.run(evaluate())
@@ -137,6 +142,7 @@ def run(ctx: Ctx) -> None:
         async def together():
             return await asyncio.gather(*[one(*job) for job in jobs])
 
+        evalenv.current_fv.set(rng.choice([evalenv.FV, evalenv.FV_METHODS]))
         S.set_schedule({})
         ref = [asyncio.run(alone(job)) for job in jobs]
         for k in range(ctx.pick(3, 10)):
